@@ -447,4 +447,70 @@ example : deliveries [true, true] true = [⟨0, .clone 0⟩, ⟨1, .clone 1⟩] 
 example : (runFan [true, false, false] false 7 (fun c => if c = 0 then some 9 else none)).1.origRO = true := by decide
 example : isRO [true, false, false] 1 ∧ (readonlyIdx [true, false, false]).length > 1 := by simp [isRO]; decide
 
+
+/-! ## order-independent summary (what the graph harness can observe whatever order the graph hands the consumers over in) -/
+
+/-- the read-only flag every consumer sees at its call, for every behaviour of the consumers: a mutating consumer never sees a
+read-only object; a non-mutating one sees read-only iff the input was, or several non-mutating consumers share it -/
+theorem C06_seen_ro (caps : List Bool) (inputRO : Bool) (c0 : Nat) (syncW : Nat → Option Nat) :
+    ∀ s ∈ (runFan caps inputRO c0 syncW).2, s.ro = seenRO caps inputRO s.consumer := by
+  intro s hs
+  simp only [runFan, List.mem_append] at hs
+  rcases hs with hs | hs
+  · have hro := phaseA_seen_ro syncW (lastGetsOrig caps inputRO) (mutableIdx caps) 0 { orig := c0, origRO := inputRO }
+      (by intro h; simp only [lastGetsOrig, Bool.and_eq_true, Bool.not_eq_true'] at h; exact h.2) s hs
+    have hc := callAll_consumers syncW _ _ s hs
+    rw [mutDeliveries_consumers] at hc
+    have := (mem_mutableIdx caps s.consumer).1 hc
+    simp [seenRO, this, hro]
+  · have hro := phaseB_seen_ro syncW (readonlyIdx caps) _ s hs
+    have hc := callAll_consumers syncW _ _ s hs
+    simp only [roDeliveries, List.map_map] at hc
+    have hc' : s.consumer ∈ readonlyIdx caps := by simpa using hc
+    have := (mem_readonlyIdx caps s.consumer).1 hc'
+    have hm : (markRO (marksRO caps inputRO) (heapA caps inputRO c0 syncW).1).origRO =
+        (inputRO || decide ((readonlyIdx caps).length > 1)) := marked_origRO caps inputRO c0 syncW
+    rw [hro, hm]
+    simp [seenRO, this]
+
+/-- at most one mutating consumer is handed the original: exactly one when there is a mutating consumer, no non-mutating one
+and the input is mutable; none otherwise -/
+theorem C06_origMut (caps : List Bool) (inputRO : Bool) :
+    origMut caps inputRO = if lastGetsOrig caps inputRO && !(mutableIdx caps).isEmpty then 1 else 0 :=
+  mutDeliveries_origCount _ _ _
+
+theorem idxWhere_length_perm (b : Bool) (a c : List Bool) (h : a.Perm c) (s t : Nat) :
+    (idxWhere b a s).length = (idxWhere b c t).length := by
+  have key : ∀ (l : List Bool) (s : Nat), (idxWhere b l s).length = l.count b := by
+    intro l
+    induction l with
+    | nil => intro s; simp [idxWhere]
+    | cons x xs ih =>
+      intro s
+      by_cases hx : x = b
+      · subst hx; simp [idxWhere, ih]
+      · have : (x == b) = false := by simpa using hx
+        simp [idxWhere, hx, ih]
+  rw [key, key, h.count_eq]
+
+/-- the summary does not depend on the order of the consumers -/
+theorem C06_summary_perm (a b : List Bool) (h : a.Perm b) (inputRO : Bool) :
+    origMut a inputRO = origMut b inputRO ∧ (readonlyIdx a).length = (readonlyIdx b).length ∧
+      (mutableIdx a).length = (mutableIdx b).length := by
+  have hr := idxWhere_length_perm false a b h 0 0
+  have hm := idxWhere_length_perm true a b h 0 0
+  refine ⟨?_, hr, hm⟩
+  rw [C06_origMut, C06_origMut]
+  have e1 : (readonlyIdx a).isEmpty = (readonlyIdx b).isEmpty := by
+    simp only [readonlyIdx] at hr ⊢
+    cases h1 : idxWhere false a 0 <;> cases h2 : idxWhere false b 0 <;> simp_all
+  have e2 : (mutableIdx a).isEmpty = (mutableIdx b).isEmpty := by
+    simp only [mutableIdx] at hm ⊢
+    cases h1 : idxWhere true a 0 <;> cases h2 : idxWhere true b 0 <;> simp_all
+  simp only [lastGetsOrig, e1, e2]
+  rfl
+
+example : origMut [true, true] false = 1 ∧ origMut [true, false] false = 0 ∧ origMut [true, true] true = 0 ∧
+    seenRO [false, false, true] false 0 = true ∧ seenRO [false, true] false 0 = false := by decide
+
 end OtelVerif.C06
